@@ -461,6 +461,19 @@ class FakeNib:
             if affine.shape != (4, 4):           # nibabel.Nifti1Image: "Affine should be shape 4,4"
                 raise ValueError("Affine should be shape 4,4")
             self.dataobj, self.affine = np.asarray(dataobj), affine
+            self.header = FakeNib.Header()
+
+    class Header:
+        """the part of nibabel's header interface a writer may touch; anything else aborts the trace"""
+        def __init__(self):
+            self.intent = 0
+
+        def set_intent(self, code, *a, **k):
+            codes = {"vector": 1007, "none": 0}
+            self.intent = codes.get(code, code) if isinstance(code, str) else int(code)
+
+        def __getattr__(self, name):
+            raise TraceError(f"NIfTI header method {name} is outside the traced vocabulary")
 
     saved = None
 
@@ -518,17 +531,54 @@ class NpProxy:
     used = False
 
 
+class NpObj:
+    """numpy whose constant matrix constructors give object arrays, so that symbolic grid attributes can be written into them"""
+
+    def __getattr__(self, name):
+        return getattr(np, name)
+
+    @staticmethod
+    def _obj(a):
+        o = np.empty(a.shape, dtype=object)
+        for idx in np.ndindex(*a.shape):
+            o[idx] = E.const(int(a[idx])) if float(a[idx]).is_integer() else E.const(float(a[idx]))
+        return o
+
+    def eye(self, *a, **k):
+        k.pop("dtype", None)
+        return self._obj(np.eye(*a, **k))
+
+    def zeros(self, *a, **k):
+        k.pop("dtype", None)
+        return self._obj(np.zeros(*a, **k))
+
+    def identity(self, *a, **k):
+        k.pop("dtype", None)
+        return self._obj(np.identity(*a, **k))
+
+
+def written_layout(img, D, C):
+    shp, intent = list(np.asarray(img.dataobj).shape), img.header.intent
+    if C == 1 and len(shp) == D and intent == 0:
+        return "LScalar"
+    if len(shp) == D + 1 and shp[-1] == C and intent == 0:
+        return "LOwn"
+    if C > 1 and len(shp) == 5 and shp[D:4] == [1] * (4 - D) and shp[4] == C and intent == 1007:
+        return "LItkVector"
+    return None
+
+
 def trace_nifti_write(D, C, size, with_channel_dim=True, layout="contiguous"):
     shape = ((C,) if with_channel_dim else ()) + tuple(reversed(size))
     data = coded(shape, layout=layout)
     grid = FakeGrid(D, size)
-    real = (NI.nib, NI.StorageObject, NI.unlink_or_mkdir)
-    NI.nib, NI.StorageObject, NI.unlink_or_mkdir = FakeNib, FakeStorage, (lambda p: p)
+    real = (NI.nib, NI.StorageObject, NI.unlink_or_mkdir, NI.np)
+    NI.nib, NI.StorageObject, NI.unlink_or_mkdir, NI.np = FakeNib, FakeStorage, (lambda p: p), NpObj()
     FakeNib.saved = None
     try:
         NI.write_nifti_image(data, grid, "x.nii")
     finally:
-        NI.nib, NI.StorageObject, NI.unlink_or_mkdir = real
+        NI.nib, NI.StorageObject, NI.unlink_or_mkdir, NI.np = real
     return FakeNib.saved
 
 
@@ -552,13 +602,15 @@ def trace_nifti_read(dim, D, intent, datashape):
 
 def gen_nifti():
     emit("(* ---- NIfTI writer: write_nifti_image (nibabel.Nifti1Image / save recorded; it accepts 4x4 affines only) ---- *)")
-    wstatus = []
+    wstatus, wlayout = [], []
     for D in (2, 3):
         aff = None
         for C in (1, 2, 3):
             try:
                 img = trace_nifti_write(D, C, PRIMES[:D])
                 wstatus.append(f"(({D}%nat, {C}%nat), ROk)")
+                lay = written_layout(img, D, C)
+                wlayout.append(f"(({D}%nat, {C}%nat), {'Some ' + lay if lay else 'None'})")
                 a = img.affine
                 key = [[st.to_text(E.const(x)) for x in r] for r in a]
                 if aff is None:
@@ -576,6 +628,8 @@ def gen_nifti():
             rows = coq_list([coq_list([coq_e(E.const(x)) for x in r]) for r in aff[0]])
             emit(f"Definition gen_nifti_w_affine_{D} {args} : option (list (list K)) :=\n  match o, s, d with {pat_vec('o', D)}, {pat_vec('s', D)}, {pat_mat('d', D, D)} => Some {rows} | _, _, _ => None end.")
     emit("Definition gen_nifti_w_status : list ((nat * nat) * rstatus) :=\n  " + coq_list(wstatus) + ".")
+    emit("(* array layout handed to nibabel (dimensions and intent code), classified; None = not one of the modelled layouts *)")
+    emit("Definition gen_nifti_w_layout : list ((nat * nat) * option nlayout) :=\n  " + coq_list(wlayout) + ".")
     rows = []
     for D in (2, 3):
         for C in (1, 2, 3):
@@ -584,10 +638,15 @@ def gen_nifti():
                 img = trace_nifti_write(D, C, SMALL[:D], layout=layout)
                 a = np.asarray(img.dataobj)
                 # on-disk order of a NIfTI array (first index fastest) = C order of the transposed array
-                rows.append(f"(({D}%nat, {C}%nat, {nat_list(SMALL[:D])}), Some ({nat_list(a.shape)}, {nat_list(a.transpose().reshape(-1).tolist())}))")
+                lay = written_layout(img, D, C)
+                if lay is None:
+                    raise ValueError("unmodelled layout")
+                rows.append(f"(({D}%nat, {C}%nat, {nat_list(SMALL[:D])}), Some ({lay}, {nat_list(a.shape)}, {nat_list(a.transpose().reshape(-1).tolist())}))")
+            except TraceError:
+                raise
             except Exception:  # noqa
                 rows.append(f"(({D}%nat, {C}%nat, {nat_list(SMALL[:D])}), None)")
-    emit("Definition gen_nifti_w_payload_samples : list ((nat * nat * list nat) * option (list nat * list nat)) :=\n  " + coq_list(rows) + ".")
+    emit("Definition gen_nifti_w_payload_samples : list ((nat * nat * list nat) * option (nlayout * list nat * list nat)) :=\n  " + coq_list(rows) + ".")
 
     emit("(* ---- NIfTI reader: read_nifti_image.  Layouts: scalar D-dimensional (dim[0] = D), ITK vector layout\n"
          "        (dim[0] = 5, dim[5] = C, intent 1007), and the layout the library's own writer produces (dim[0] = D + 1,\n"
